@@ -64,7 +64,7 @@ def main():
                 cm.enter_context(patched(algo_base, "time", tm))
                 cm.enter_context(patched(fom, "time", tm))
             if call == "fit":
-                model = workload.make_model(kind, nf)
+                model = workload.make_model(kind, nf, **({"initialization_method": "random"} if plan.get("init_random") else {}))
                 data = workload.to_data(cohort("train"), kind)
                 kw.update(n_iter=plan["n_iter"])
                 if plan.get("annealing"):
